@@ -51,7 +51,7 @@ def validate(traces, jobs=16, module='TraceDlis.tla', cfg='TraceDlis.cfg', keep=
 
         def one(p):
             return run_tlc(module, cfg, cwd=SPEC, workers=1, env={'TRACE_FILE': p}, timeout=3600,
-                           metadir=p + '.meta', heap='3g', coverage=True)
+                           metadir=p + '.meta', heap='3g', coverage=False)
 
         with ThreadPoolExecutor(max_workers=jobs) as ex:
             results = list(ex.map(one, files))
